@@ -244,6 +244,7 @@ PROPS["C14"] = dict(
         scunit("cancel_owner", children=2, steps=2, owner_co=True, cancel_owner=True, n=500),
         scunit("owner_panic", children=2, steps=2, owner_co=True, owner_panic=True),
         scunit("child_panic", children=2, steps=1, owner_co=False, child_panic=1),
+        scunit("child_panic_lifo", children=3, steps=2, owner_co=True, child_panic=2, explicit_join=False),
         scunit("plain_thread", children=2, steps=2, owner_co=False),
     ] + [dict(u, name="cq_" + u["name"]) for u in C16_UNITS if u["name"] in ("select2", "select2_co", "kernel_race", "panic_top")],
 )
